@@ -79,6 +79,9 @@ let show_obs (o : outcome) : string =
 
 let fuel = nat_of_int 60000
 
+(* the flag of Model/Reader.v that is parser.go as it is now *)
+let code = true
+
 let parse_cuts (s : string) : int list =
   if s = "-" || s = "" then [] else List.map int_of_string (String.split_on_char ',' s)
 
@@ -113,14 +116,15 @@ let last l = List.nth l (List.length l - 1)
 
 let do_chunk (text : z list) (cuts : int list) : string * string =
   let ps = mark_last (pieces text cuts) in
-  let w = show_obs (parse_whole false fuel text) in
-  let (obs, _) = deliver_seq false (p_reset fuel (p_init fuel)) ps in
+  let w = show_obs (parse_whole code fuel text) in
+  let (obs, _) = deliver_seq code (p_reset fuel (p_init fuel)) ps in
   let ws = show_obs (parse_whole true fuel text) in
   let (obss, _) = deliver_seq true (p_reset fuel (p_init fuel)) ps in
   let u = (match unfinished text with Some true -> "unfinished" | Some false -> "finished" | None -> "-") in
-  let (m, d) = scan (text @ [z_of_int 10]) in
+  let ((m, d), pend) = scan (text @ [z_of_int 10]) in
   let mname = (match m with MCode -> "Code" | MStr -> "Str" | MStrEsc -> "Str" | MRaw -> "Raw" | MLine -> "Line"
     | MBlock -> "Block" | MBlockStar -> "Block" | MSlash -> "Slash" | MRune -> "Rune" | MRuneEsc -> "Rune") in
+  let mname = if pend && mname = "Code" then "Prefix" else mname in
   let u = u ^ ":" ^ mname ^ ":" ^ string_of_z d in
   ("W=" ^ w ^ " ;; P=" ^ String.concat " | " obs, "W=" ^ ws ^ " ;; F=" ^ last obss ^ " ;; U=" ^ u)
 
@@ -129,12 +133,12 @@ let rec triples = function
   | _ -> []
 
 let do_hist (text : z list) (items : (string * string * string) list) : string =
-  let fresh = show_obs (parse_whole false fuel text) in
+  let fresh = show_obs (parse_whole code fuel text) in
   let p = List.fold_left (fun p (h, c, a) ->
       let ps = pieces (decode h) (parse_cuts c) in
       let ps = if a = "a" then ps else mark_last ps in
-      snd (deliver_seq false (p_reset fuel p) ps)) (p_init fuel) items in
-  let after = show_obs (parse_after false fuel p text) in
+      snd (deliver_seq code (p_reset fuel p) ps)) (p_init fuel) items in
+  let after = show_obs (parse_after code fuel p text) in
   let same = if reset p.ps_lex = init_lstate then "same" else "diff" in
   "F=" ^ fresh ^ " ;; H=" ^ after ^ " ;; S=" ^ same
 
